@@ -40,7 +40,8 @@ KEY_TYPES = {"str": {"key": "str"}, "bytes": {"key": "bytes"}, "bytearray": {"ke
 @klass("afkak.partitioner.HashedPartitioner")
 class _:
     props = ["C18"]
-    fields = {}
+    # set by Partitioner.__init__ and never refreshed: what the partitioner was created with, not the current list
+    fields = {"topic": "Any", "partitions": "List[int]"}
     invariant = {}
 
 
